@@ -70,9 +70,10 @@ def run(ch, build):
     rng = ch.rng
     mb = [-512, -511, -1, 0, 1, 2, 255, 511]; ks = [-8, -7, -1, 0, 1, 7]
     tuples = [(m, b, k1, k2) for m in mb for b in mb for k1 in ks for k2 in ks]
-    if ch.quick():
-        tuples = rng.sample(tuples, 10) + [(1, 0, 0, 0), (511, -512, 7, -8), (-512, 511, -8, 7)]
-    tuples += [(rng.randrange(-512, 512), rng.randrange(-512, 512), rng.randrange(-8, 8), rng.randrange(-8, 8)) for _ in range(6 if ch.quick() else 200)]
+    # (the grid has 2304 factor tuples; with 3 formats x 12 linearisers x 256 raw bytes each, the thorough tier takes a
+    # seeded sample of 70 of them plus 30 random ones - about 0.9 million readings - and the quick tier 13 + 6)
+    tuples = rng.sample(tuples, 10 if ch.quick() else 70) + [(1, 0, 0, 0), (511, -512, 7, -8), (-512, 511, -8, 7)]
+    tuples += [(rng.randrange(-512, 512), rng.randrange(-512, 512), rng.randrange(-8, 8), rng.randrange(-8, 8)) for _ in range(6 if ch.quick() else 30)]
     cases = []     # (fsr, rsp bytes, meta)
     for ti, (m, b, k1, k2) in enumerate(tuples):
         full = (ti < 3) or not ch.quick()
